@@ -847,7 +847,9 @@ class Pass2(CompilePass):
                         )
 
             if node.parent_routine.has_variable(decl.name) or \
-               decl.name in self.compilation.routines:
+               decl.name in self.compilation.routines or \
+               decl.name in node.parent_routine.local_consts or \
+               decl.name in self.compilation.global_consts:
                 raise CompileError(
                     EC.DUPLICATE_DEFINITION,
                     node=decl)
